@@ -67,6 +67,9 @@ func (c *Ctx) run(rule string) []Obligation {
 			n++
 		}
 	}
+	if m, ok := frozenMin[rule]; ok {
+		r.Min = m
+	}
 	if n < r.Min {
 		o = append(o, Obligation{Rule: rule, Key: rule + " | <vacuity> | instance count", Status: Undecided, Nontrivial: true,
 			Detail: fmt.Sprintf("rule matched %d obligations, fewer than the %d confirmed by hand when the rule was frozen: an anchor was lost", n, r.Min)})
@@ -197,8 +200,25 @@ func checkProperty(c *Ctx, p *Property, tier string, seed int, known []KnownFind
 	if tier == "thorough" {
 		ruleNames = append(ruleNames, thoroughRules(p)...)
 	}
-	for _, r := range ruleNames {
-		all = append(all, c.run(r)...)
+	for i, spec := range ruleNames {
+		// "RULE@text@!text": only obligations whose key contains text / does not contain !text
+		parts := strings.Split(spec, "@")
+		ruleNames[i] = parts[0]
+		for _, ob := range c.run(parts[0]) {
+			keep := true
+			for _, f := range parts[1:] {
+				if strings.HasPrefix(f, "!") {
+					if strings.Contains(ob.Key, f[1:]) {
+						keep = false
+					}
+				} else if !strings.Contains(ob.Key, f) && !strings.Contains(ob.Key, "<vacuity>") {
+					keep = false
+				}
+			}
+			if keep {
+				all = append(all, ob)
+			}
+		}
 	}
 	vdir := verifDir()
 	evdir := filepath.Join(vdir, "evidence")
